@@ -1107,8 +1107,12 @@ fn group_by_suffix(
         FileAccess::Random,
         |(fi, old_hash)| {
             progress.inc(1);
-            // --max-suffix-size may exceed the length of the file
-            let suffix_len = min(suffix_len, fi.len);
+            // --max-suffix-size may reach or exceed the length of the file. There is no separate
+            // suffix to hash then, and hashing the whole file again could only cancel out an
+            // identical prefix hash in the XOR below (merging different files into one group).
+            if suffix_len >= fi.len {
+                return Some(old_hash);
+            }
             let chunk = FileChunk::new(&fi.path, fi.len.as_pos() - suffix_len, suffix_len);
             ctx.hasher
                 .hash_file_or_log_err(&chunk, |_| {})
